@@ -150,9 +150,17 @@ def gen_pattern(rng, targets):
     if r < 0.7:
         j = rng.randrange(i, len(t) + 1)
         return ".*" + t[i:j] + ".*" if t[i:j] else ".*"
-    if r < 0.74:
+    if r < 0.78:
         # richer constructs of the modelled regex subset (alternation, group, class, optional, own anchors)
-        k = rng.randrange(6)
+        k = rng.randrange(9)
+        if k == 6:
+            # the user's own anchors around a top-level alternation: still one whole-string pattern, so neither the
+            # anchored proper prefix nor the anchored proper suffix may match
+            return "^" + t[:i] + "|" + t[i:] + "$"
+        if k == 7:
+            return "^" + t[:i]
+        if k == 8:
+            return t[i:] + "$"
         if k == 0:
             return t[:i] + "(?:" + t[i:] + "|zzz)"
         if k == 1:
@@ -164,9 +172,9 @@ def gen_pattern(rng, targets):
         if k == 4:
             return "^" + t + "$"
         return t[:i] + ".+" if i < len(t) else t
-    if r < 0.8:
+    if r < 0.84:
         return t[:i]            # proper prefix: must NOT match (whole-string semantics)
-    if r < 0.9:
+    if r < 0.92:
         return t[i:]            # proper suffix: must NOT match
     return t + "x"
 
